@@ -67,6 +67,9 @@ SEGMENTS = ['..', '.', '', 'a.txt', 'sub', 'b.txt', '%2e%2e', '%252e%252e', '..%
             'secret.txt', 'docroot-extra', 'leak.txt', 'sp%20ace.txt', ABS]
 BENIGN = {'a.txt', 'sub', 'b.txt', 'sp%20ace.txt', 'secret.txt', 'docroot-extra', 'leak.txt'}
 RANGE_SIZES = (0, 1, 10, 100)
+RANGE_BIG = 20000
+RANGE_BIG_SPECS = ('100-5099', '0-4095', '0-4096', '4095-8192', '4096-8191', '1-19998', '-5000', '-4097', '15000-', '12000-25000',
+                   '0-0', '19999-19999', '0-4095,8192-12287', '100-5099,15000-')
 RANGE_VALUES = ('', '0', '1', '5', '9', '10', '11', '100', 'x', '-1')
 RANGE_UNITS = ('bytes=', 'items=', '')
 
@@ -100,6 +103,8 @@ class Fixture:
         w('parent/docroot/sp ace.txt', b'content of the file with a space\n')
         for n in RANGE_SIZES:
             w('parent/docroot/r%d.bin' % n, bytes(33 + (i * 7) % 90 if i % 10 else 65 + i // 10 for i in range(n)))
+        # one file larger than the 4 KiB chunks a file body is read in (ranges spanning several chunks)
+        w('parent/docroot/r%d.bin' % RANGE_BIG, bytes((i * 7 + i // 251) % 251 for i in range(RANGE_BIG)))
 
     def _write(self, rel, data):
         p = os.path.join(self.tmp, rel)
@@ -622,6 +627,9 @@ def range_cases(tier):
                     yield 'http', '1.1', size, '%s%s,%s' % (u, s1, s2)
                     if tier != 'quick' and u == 'bytes=':
                         yield 'direct', '1.1', size, '%s%s,%s' % (u, s1, s2)
+    for s in RANGE_BIG_SPECS:
+        for fe in FRONTENDS:
+            yield fe, '1.1', RANGE_BIG, 'bytes=' + s
     # HTTP/1.0 knows no ranges: the header is ignored or honoured correctly, same oracle
     for size in RANGE_SIZES:
         for s in specs:
